@@ -672,7 +672,7 @@ class Exec(Path):
         if isinstance(h, HBytes):
             h.t = self.fresh(name, BYTES)       # a tracked length (fixed-size buffer) survives: bytearray length changes only by extend
         elif isinstance(h, HList):
-            if h.items is not None and any(isinstance(x, VRef) and not isinstance(self.heap[x.rid], (HDict, HList, HBytes)) for x in h.items):
+            if h.items is not None and any(isinstance(x, VRef) and not isinstance(self.heap[x.rid], (HDict, HList, HBytes, HObj)) for x in h.items):
                 raise Unsupported("havoc of list holding object references")
             h.items, h.rule = None, None
             h.seq = self.fresh(name, PVSEQ)
@@ -1634,6 +1634,8 @@ class Exec(Path):
         for kw in n.keywords:
             if kw.arg is None:
                 dv = self.eval(kw.value)
+                if isinstance(dv, VBox):
+                    dv = self.unbox(dv, "dict")
                 d = self.deref(dv)
                 if not isinstance(d, HDict):
                     raise Unsupported("** of non-dict")
@@ -1708,12 +1710,22 @@ class Exec(Path):
         names = [x.arg for x in a.posonlyargs + a.args]
         bound = {}
         if "**" in kwargs:
-            if a.kwarg is None or len(kwargs) > 1 or len(args) > len(names) or len(names) - len(args) > 0:
-                raise Unsupported("** of a symbolic dict into a callee with named parameters")
-            for nme, v in zip(names, args):
-                bound[nme] = v
-            bound[a.kwarg.arg] = kwargs["**"]
-            return bound
+            star = kwargs.pop("**")
+            if a.kwarg is not None and not kwargs and len(args) == len(names):
+                for nme, v in zip(names, args):
+                    bound[nme] = v
+                bound[a.kwarg.arg] = star
+                return bound
+            # named parameters: take every parameter the mapping is known to contain (keys must be decided by the path condition)
+            d = self.heap[star.rid]
+            for nme in names[len(args):] + [x.arg for x in a.kwonlyargs]:
+                if nme in kwargs:
+                    continue
+                has = self.dict_has(d, VStr(nme))
+                if self.entails(has):
+                    kwargs[nme] = self.dict_get(d, VStr(nme))
+                elif self.feasible(has):
+                    raise Unsupported(f"** of a symbolic dict: presence of key {nme!r} is not determined")
         if len(args) > len(names) and a.vararg is None:
             self.raise_("TypeError")
         for nme, v in zip(names, args):
